@@ -273,6 +273,19 @@ impl Run {
         self.step(Op::NativeBurn { addr: coll.clone(), amount: 500 });
         self.step(sc.stake(&u[2], big, None, None, None));
         self.relay_all("ack");
+        // more than one page of failed transfers for one receiver
+        for i in 0..12u128 {
+            self.step(sc.stake(&u[2], sc.cfg.min_stake.min(1_000_000_000_000_000_000_000_000).max(1000) + i, None, None, None));
+        }
+        self.relay_all(if sc.cfg.salt % 3 == 0 { "timeout_or_err" } else { "err" });
+        if sc.cfg.salt % 2 == 0 {
+            self.step(sc.recover(&u[0], None, None, None));
+        } else {
+            self.step(sc.recover(&u[0], Some(true), None, None));
+            self.step(sc.recover(&u[1], Some(true), None, None));
+        }
+        self.step(sc.recover(&u[0], None, None, None)); // nothing left: must be refused
+        self.relay_all("ack");
         self.model.count("exit_scenario");
     }
 
@@ -283,9 +296,17 @@ impl Run {
         }
     }
     pub fn relay_all(&mut self, oc: &str) {
-        let ps: Vec<(String, u64)> = self.sc.w.packets.values().filter(|p| p.status == PStatus::InFlight).map(|p| (p.channel.clone(), p.seq)).collect();
-        for (c, s) in ps {
-            self.step(Op::Relay { channel: c, seq: s, outcome: oc.into() });
+        let ps: Vec<(String, u64, u64)> = self.sc.w.packets.values().filter(|p| p.status == PStatus::InFlight).map(|p| (p.channel.clone(), p.seq, p.timeout_ns)).collect();
+        if oc == "timeout_or_err" {
+            let latest = ps.iter().map(|p| p.2).max().unwrap_or(0);
+            if latest >= self.sc.w.now_ns {
+                let secs = (latest - self.sc.w.now_ns) / 1_000_000_000 + 1;
+                self.step(Op::Advance { secs });
+            }
+        }
+        for (i, (c, s, _)) in ps.into_iter().enumerate() {
+            let o = if oc == "timeout_or_err" { if i % 2 == 0 { "timeout" } else { "err" } } else { oc };
+            self.step(Op::Relay { channel: c, seq: s, outcome: o.into() });
         }
     }
 
